@@ -80,7 +80,11 @@ def action_c(rule_no, ops, backend, lineno_on, bol_obs):
     for o in ops:
         k = o[0]
         if k == 'begin':
-            out.append(a['begin'] % (o[1] - 1))
+            b = a['begin'] % (o[1] - 1)
+            if b.startswith("yybegin(") and (rule_no + len(out)) % 4 != 0:
+                # the argument is an expression, not a constant (yybegin is a macro in the C skeleton): g_z is 0
+                b = "yybegin(" + ["g_z ? 0 : %d", "%d + g_z", "g_z | %d"][(rule_no + len(out)) % 4 - 1] % (o[1] - 1) + ");"
+            out.append(b)
         elif k == 'push':
             out.append(a['push'] % (o[1] - 1))
         elif k == 'pop':
@@ -125,7 +129,7 @@ TOP = r"""
 #include <stdlib.h>
 #include <string.h>
 static void ev_tok(int r, const char *t, int n, int sc, int line, int bol);
-static int g_argc; static char **g_argv; static int g_next;
+static int g_argc; static char **g_argv; static int g_next; static int g_z;
 """
 
 # argv: [-a|-r] file... [-- file...]...   files of one session are chained by yywrap; after yylex returned 0 the
